@@ -1,17 +1,21 @@
 #!/bin/bash
-# re-run every independently seeded change (seeded/<name>/patch.diff) against its property's quick check at
-# VERIF_SEED 1 and 2; write seeded/RESULTS.tsv (name, property, seed1, seed2, first clause)
+# re-run every independently seeded change (seeded/<name>/patch.diff) against its property's quick check on the CURRENT
+# machinery: VERIF_SEED 1, and seeds 2 and 3 only where seed 1 misses; write seeded/RESULTS.tsv
+# (name, property, result, first clause).  Patches are diffs against the /repo HEAD of their time: PATCH-FAILED means a
+# later fix: commit touched the same lines.
 cd "$(dirname "$0")/.."
 out=seeded/RESULTS.tsv; : > $out
 for d in seeded/*/; do
   n=$(basename $d); id=$(echo $n | cut -d- -f1)
-  r=""; first=""
-  for s in 1 2; do
-    log=$(./selftest $id $d/patch.diff $s 2>&1)
-    res=$(echo "$log" | tail -1 | grep -o 'KILLED\|SURVIVED\|PATCH-FAILED')
-    r="$r\t$res"
-    [ -z "$first" ] && first=$(echo "$log" | grep "clause=" | head -1 | sed 's/ msg=.*//' | cut -c1-100)
-  done
-  echo -e "$n\t$id$r\t$first" >> $out
+  log=$(./selftest $id $d/patch.diff 1 2>&1)
+  res=$(echo "$log" | tail -1 | grep -o 'KILLED\|SURVIVED\|PATCH-FAILED')
+  if [ "$res" = "SURVIVED" ]; then
+    for s2 in 2 3; do
+      log=$(./selftest $id $d/patch.diff $s2 2>&1)
+      if echo "$log" | tail -1 | grep -q KILLED; then res="KILLED(seed $s2; survived seed 1)"; break; fi
+    done
+  fi
+  first=$(echo "$log" | grep "clause=" | head -1 | sed 's/ msg=.*//' | cut -c1-100)
+  echo -e "$n\t$id\t$res\t$first" >> $out
 done
 echo done >> $out
